@@ -26,6 +26,9 @@ def the_world():
     e2[0][0] += 3
     w["reads"].append(W.read_of("eqspan", "chr1", e1))
     w["reads"].append(W.read_of("eqspan", "chr1", e2, secondary=True))
+    # an unmapped record that carries the position of its mate / of a discarded alignment (flag 4 with RNAME and POS), starting where
+    # records of other reads start
+    w["reads"].append({"name": "placed_unm", "unmapped": True, "chr": "chr1", "pos": 1001})
     return w
 
 
